@@ -47,6 +47,7 @@ type Summary struct {
 	Ends        map[string]int
 	EndSamples  map[string][]string // a few messages per non-"done" end kind
 	EndModels   map[string][]smt.Model
+	EndClasses  map[string][][]string
 	Decisions   int
 	Forks       int
 	Obligations map[string]*OblStat
@@ -109,7 +110,7 @@ func (p *Pool) Close() {
 
 func (p *Pool) Explore(entry *ssa.Function, opt Options) *Summary {
 	t0 := time.Now()
-	s := &Summary{Harness: entry.Name(), Ends: map[string]int{}, EndSamples: map[string][]string{}, EndModels: map[string][]smt.Model{},
+	s := &Summary{Harness: entry.Name(), Ends: map[string]int{}, EndSamples: map[string][]string{}, EndModels: map[string][]smt.Model{}, EndClasses: map[string][][]string{},
 		Obligations: map[string]*OblStat{}, KFSeen: map[string]smt.Model{}, Reached: map[string]int{},
 		Funcs: map[string]int64{}, Stubs: map[string]int64{}}
 	if opt.MaxViolPerID == 0 {
@@ -161,9 +162,10 @@ func (p *Pool) Explore(entry *ssa.Function, opt Options) *Summary {
 				s.Paths++
 				s.Ends[res.End]++
 				if res.End != "done" && res.End != "assume-false" {
-					if len(s.EndSamples[res.End]) < 5 {
+					if len(s.EndSamples[res.End]) < 8 && !contains(s.EndSamples[res.End], res.Msg) {
 						s.EndSamples[res.End] = append(s.EndSamples[res.End], res.Msg)
 						s.EndModels[res.End] = append(s.EndModels[res.End], res.Model)
+						s.EndClasses[res.End] = append(s.EndClasses[res.End], res.ClassTrue)
 					}
 				}
 				s.Decisions += len(res.Decisions)
@@ -257,4 +259,13 @@ func oblJSON(obs []interp.Obligation) []string {
 		r = append(r, o.ID+":"+o.Verdict)
 	}
 	return r
+}
+
+func contains(xs []string, x string) bool {
+	for _, y := range xs {
+		if y == x {
+			return true
+		}
+	}
+	return false
 }
